@@ -625,6 +625,30 @@ def check_refs(X, sl, rnd, P):
                     if hh._xobject.r.a != tv.a:
                         P.add("C08", f"hybrid-ref-history:{step}:write-not-visible", **ctx)
                         break
+            # copies of a hybrid holder of a reference: into another buffer / context the referent is duplicated and the copy's attribute
+            # denotes the duplicate (in the copy's buffer); in the same buffer it is shared; writes never cross between independent copies
+            try:
+                hh.r = t1
+                for where, dest in (("other-buffer", X.ContextCpu().new_buffer(64)), ("same-buffer", hb), ("default", None)):
+                    cp = hh.copy(_buffer=dest) if dest is not None else hh.copy()
+                    P.evals += 1
+                    inner = cp.r
+                    same = dest is hb
+                    if inner is None or inner._buffer is not cp._buffer or cp._xobject.r._buffer is not cp._buffer:
+                        P.add("C09", f"hybrid-copy:{where}:reference-resolves-outside-the-copy's-buffer", **ctx)
+                    elif inner._offset != cp._xobject.r._offset or (same and inner._offset != t1._xobject._offset):
+                        P.add("C09", f"hybrid-copy:{where}:attribute-is-not-the-copy's-referent", **ctx)
+                    elif not same:
+                        a0 = t1.a
+                        inner.a = a0 + 1000
+                        if t1.a != a0 or cp._xobject.r.a != a0 + 1000:
+                            P.add("C09", f"hybrid-copy:{where}:write-crosses-or-is-lost", original=t1.a, copy_buffer=cp._xobject.r.a, **ctx)
+                        t1.a = a0 + 7
+                        if cp.r.a != a0 + 1000:
+                            P.add("C09", f"hybrid-copy:{where}:write-to-original-shows-in-copy", **ctx)
+                        t1.a = a0
+            except Exception as e:  # noqa
+                P.add("C09", f"hybrid-copy:raised:{type(e).__name__}", problem=str(e)[:200], **ctx)
         # references inside a copied holder resolve to live objects of the copy's buffer: the same referent in the same buffer
         for RC in (sl.R2, sl.R3):
             try:
